@@ -67,13 +67,24 @@ def leaf(kind, scratch, cleanup):
         d = _newdir(scratch, "fs")
         cleanup.append(d)
         return FileStore(d)
+    if kind == "filerel":
+        # the same directory store addressed by a path relative to the working directory
+        d = _newdir(scratch, "fsrel")
+        cleanup.append(d)
+        return FileStore(os.path.relpath(d, os.getcwd()))
+    if kind == "filedot":
+        d = _newdir(scratch, "fsdot")
+        cleanup.append(d)
+        s = FileStore(os.path.join(os.path.relpath(d, os.getcwd()), "x", ".."))
+        os.makedirs(os.path.join(d, "x"), exist_ok=True)
+        return s
     raise ValueError(kind)
 
 
 C07_CONFIGS = [
     "memory", "file", "proxy(memory)", "proxy(file)", "indexer(memory)", "indexer(file)",
     "overlay(memory|empty)", "overlay(file|empty)", "mountdefault(memory)", "mountdefault(file)",
-    "mounted(memory)", "mounted(file)", "global(memory)", "global(file)", "mounted2(memory)", "mounted2(file)",
+    "mounted(memory)", "mounted(file)", "global(memory)", "global(file)", "mounted2(memory)", "mounted2(file)", "filerel", "proxy(filerel)",
 ]
 
 
@@ -83,7 +94,7 @@ def build(cfg, scratch):
     cleanup = []
     name, _, arg = cfg.partition("(")
     arg = arg.rstrip(")")
-    if name in ("memory", "file"):
+    if name in ("memory", "file", "filerel"):
         s = leaf(name, scratch, cleanup)
         return Built(s, [s], cleanup=cleanup)
     if name == "proxy":
